@@ -269,7 +269,7 @@ def part_schedules(ctx, et):
     ctx.count("schedules:corpus", len(cases))
     run_schedule_cases(ctx, et, cases, "corpus")
     gen = []
-    for n in range(int(ctx.n(45, 700) * SCALE)):
+    for n in range(int(ctx.n(38, 700) * SCALE)):
         world, pre, setup, reqs = gen_pair(rng)
         places = PLACEMENTS if n % 5 == 0 else rng.sample(PLACEMENTS, 8)
         for turns in places:
@@ -354,7 +354,7 @@ def part_stress(ctx, et):
     hists = []
     t_end = time.time() + ctx.n(25, 420) * max(1.0, SCALE)
     n = 0
-    target = int(ctx.n(140, 3000) * SCALE)
+    target = int(ctx.n(120, 3000) * SCALE)
     while n < target and time.time() < t_end:
         world, pre, setup, threads = gen_stress(rng)
         stype = "multifilesystem" if n % 2 == 0 else "multifilesystem_nolock"
@@ -422,28 +422,53 @@ def part_instances(ctx, et):
         a = xc.gen_request(rng, 1, False, reads=0.0)
         b = xc.gen_request(rng, 1, False, reads=0.2)
         pairs.append(("gen", xc.gen_setup(rng, 2), a, b, rng.choice(["enter", "rename"])))
+    import errno
+    FAULTS = [errno.ENOLCK, errno.ENOTSUP, errno.ENOSYS, errno.EIO, errno.EBADF, errno.EINVAL, errno.ENOMEM]
     runs, cases = [], []
     reported = False
+    plan = []
     for name, setup, a, b, park in pairs:
         for cache_mode in ("none", "shared", "distinct"):
             for late in (False, True):
                 if name == "gen" and rng.random() < 0.5:
                     continue
-                r = xc.run_two_instances(w, [], setup, a, b, et, cache_mode, late, park=park)
+                plan.append((name, setup, a, b, park, cache_mode, late, None))
+    # fault injection at flock(): the second instance's request cannot get the lock -> it must fail, not run unlocked
+    for k, e in enumerate(FAULTS):
+        name, setup, a, b, park = pairs[k % 3]
+        plan.append((name + "+flock-fails", setup, a, b, park, "none", bool(k % 2), e))
+    for name, setup, a, b, park, cache_mode, late, fault in plan:
+                r = xc.run_two_instances(w, [], setup, a, b, et, cache_mode, late, park=park, flock_errno=fault)
+                if fault is not None:
+                    ctx.count("instances:flock-fault:%s" % errno.errorcode.get(fault, fault))
                 ctx.case(("instances", name, repr(a), repr(b), cache_mode, late, park), nontrivial=bool(r["parked"]))
                 ctx.count("instances:%s:%s" % (cache_mode, "late" if late else "early"))
                 ctx.count("instances:parked" if r["parked"] else "instances:not-parked")
                 rp = dict(kind="instances", name=name, world=x_hcheck.world_json(w), setup=setup, a=a, b=b, cache_mode=cache_mode,
                           second_instance_constructed_while_request_in_flight=late, park=park, events=r["events"],
+                          flock_errno_injected_for_instance_2=fault,
                           responses=[repr(c) for c in r["resps"]], store=repr(r["store"]))
-                if (r["entered_while_held"] or r["b_done_while_held"]) and not reported:
+                # (a request whose flock() was made to fail may, and must, be answered at once -- with an error)
+                if (r["entered_while_held"] or (r["b_done_while_held"] and fault is None)) and not reported:
                     reported = True
                     ctx.violation("two server instances on one storage folder do not exclude each other (filesystem_cache_folder: %s; second "
                                   "instance constructed %s): instance 2 %s while instance 1 was inside its exclusive critical section" % (
-                                      cache_mode, "while the request was in flight" if late else "before",
+                                      cache_mode if fault is None else "%s, flock() of instance 2 failing with %s" % (
+                                          cache_mode, errno.errorcode.get(fault, fault)),
+                                      "while the request was in flight" if late else "before",
                                       "entered %r" % (r["entered_while_held"][:2],) if r["entered_while_held"] else "answered"), rp, signature=None)
                 if any(r["errors"]) or any(c is None for c in r["resps"]):
                     ctx.obligation("two-instance-scenario-ran", False, repr((name, cache_mode, late, r["errors"]))[:500])
+                    continue
+                if fault is not None:
+                    # the faulted request must have failed; what remains must be request A alone
+                    if r["resps"][1][0] != "S500" and not reported:
+                        reported = True
+                        ctx.violation("flock() failed with %s for the request of instance 2, yet it was answered %s instead of failing "
+                                      "(instance 1 was inside its exclusive section)" % (errno.errorcode.get(fault, fault), r["resps"][1][0]),
+                                      rp, signature=None)
+                    runs.append((rp, r))
+                    cases.append(((w, [], setup, [a], []), (r["store"], r["setup"], r["resps"][:1])))
                     continue
                 runs.append((rp, r))
                 cases.append(((w, [], setup, [a, b], []), (r["store"], r["setup"], r["resps"])))
@@ -643,11 +668,14 @@ def replay(ctx, path):
         setup = x_hcheck.detuple_hist(rp["setup"])
         (a, b) = x_hcheck.detuple_hist([rp["a"], rp["b"]])
         r = xc.run_two_instances(world, [], setup, a, b, et, rp["cache_mode"], rp["second_instance_constructed_while_request_in_flight"],
-                                 park=rp.get("park", "enter"))
+                                 park=rp.get("park", "enter"), flock_errno=rp.get("flock_errno_injected_for_instance_2"))
         print("lock events (who, what, instance 1 inside its exclusive section?):", r["events"])
         print("responses:", r["resps"])
         print("final store:", r["store"])
         print("instance 2 entered while instance 1 held the lock:", r["entered_while_held"], r["b_done_while_held"])
+        fault = rp.get("flock_errno_injected_for_instance_2")
+        if fault is not None:
+            return 1 if (r["entered_while_held"] or (r["resps"][1] or ("",))[0] != "S500") else 0
         return 1 if (r["entered_while_held"] or r["b_done_while_held"]) else 0
     if rp.get("kind") == "hook":
         r = xc.run_hook_pair(rp["storage_type"])
